@@ -53,6 +53,27 @@ def histories(f, data, rng):
         t2.add_subtree(sub, parent=None if par == t.root_node_name else par)
         t2.update()
         yield "prune-regraft-detour", t2
+        # the same subtree object grafted into two candidates (as the prune-regraft move does); the other candidate is
+        # then edited in place -- the first must still be the same tree
+        t = t0.copy()
+        sub = t.get_subtree(names[i])
+        par = t.get_parent(names[i])
+        t.remove_subtree(sub)
+        cand_a = t.copy()
+        cand_a.add_subtree(sub, parent=None if par == t.root_node_name else par)
+        cand_a.update()
+        others = [n for n in t.nodes] + [None]
+        cand_b = t.copy()
+        cand_b.add_subtree(sub, parent=others[int(rng.integers(0, len(others)))])
+        cand_b.update()
+        grafted = [n for n in cand_b.nodes if n not in t.nodes]
+        big = [n for n in grafted if cand_b.get_data_len(n) > 1]
+        if big:
+            n0 = big[0]
+            cand_b.remove_data_point_from_node(cand_b.get_data(n0)[0], n0)
+        else:
+            cand_b.relabel_nodes()
+        yield "grafted-twice-other-candidate-edited", cand_a
     # data-point detour: move a point to another clone / outliers and back
     movable = [(i, j) for i in range(f.K) for j in f.blocks[i] if len(f.blocks[i]) > 1]
     if movable and f.K >= 1:
